@@ -194,10 +194,11 @@ static std::string runDT(int n, int mut, int use, bool indexed)
 	DT::RowReference foreign = other[0];
 	auto bounds = t.GetColumnItems(intCol);
 	// removal / replacement of rows invalidates row references and selections; adding rows or updating items does not
-	bool rmod = false; const char* mname = "?";
+	bool rmod = false, either = false; const char* mname = "?";
 	switch (mut)
 	{
 	case 0: mname = "none"; break;
+	case 15: mname = "Remove(filter-nothing)"; t.Remove([] (DT::ConstRowReference) { return false; }); either = true; break;   // conservative bump, see NOTES
 	case 1: mname = "AddRow"; t.AddRow(intCol = 1000, grpCol = 1); break;
 	case 2: mname = "Remove(row-reference)"; t.Remove(t[2]); rmod = true; break;
 	case 3: mname = "Remove(row-number)"; t.Remove(size_t(2)); rmod = true; break;
@@ -236,6 +237,7 @@ static std::string runDT(int n, int mut, int use, bool indexed)
 	case 15: uname = "Add(foreign-table-row)"; expect = 'R'; o = attempt([&] { t.Add(other.NewRow(intCol = 6000)); }); break;
 	default: return "BAD unknown use";
 	}
+	if (either && (use <= 6 || use == 12)) expect = '?';
 	bool unchanged = rowsOf(t) == before;
 	return verdict(expect, o, unchanged, std::string("dt mut=") + mname + " use=" + uname + (indexed ? " indexed" : ""));
 }
